@@ -34,9 +34,24 @@ type cfgFile struct {
 	HasKeys    bool
 	Text       string
 	Kind       string
-	Poll       string // "" omitted, "ok", "bad"
-	TwoEntries bool   // the plugin is configured twice; the fields above describe the later entry
+	Poll       string   // "" omitted, "ok", "bad"
+	TwoEntries bool     // the plugin is configured twice; the fields above describe the later entry
+	Plug       []string // addresses of the services contributed by the service plugins this file enables
 }
+
+// svcPlugin contributes a service to the federation, as the meta plugin does (Plugin.GraphqlQueryPath).
+type svcPlugin struct {
+	bramble.BasePlugin
+	id, path string
+}
+
+func (p *svcPlugin) ID() string                       { return p.id }
+func (p *svcPlugin) GraphqlQueryPath() (bool, string) { return true, p.path }
+
+var svcPlugins = []*svcPlugin{{id: "verif-svc", path: "verifsvc"}, {id: "verif-svc2", path: "verifsvc2"}}
+
+// the address Config.PrivateHttpAddress gives a plugin's path with the default private port
+func svcPluginURL(p *svcPlugin) string { return "http://localhost:8083/" + p.path }
 
 func (f *cfgFile) term() string {
 	svc := "None"
@@ -61,7 +76,7 @@ func (f *cfgFile) term() string {
 	} else if f.Poll == "bad" {
 		poll = "(Some false)"
 	}
-	return "{| f_loadable := " + cbool(f.Loadable) + "; f_poll := " + poll + "; f_services := " + svc + "; f_roles := " + roles + "; f_keys := " + keys + " |}"
+	return "{| f_loadable := " + cbool(f.Loadable) + "; f_poll := " + poll + "; f_services := " + svc + "; f_roles := " + roles + "; f_keys := " + keys + "; f_plug := " + cstrlist(f.Plug) + " |}"
 }
 
 func genCfgFile(r *mrand.Rand, urls []string, pems map[string]string, first bool) *cfgFile {
@@ -119,6 +134,12 @@ func genCfgFile(r *mrand.Rand, urls []string, pems map[string]string, first bool
 		doc["plugins"] = []interface{}{map[string]interface{}{"name": "auth-jwt", "config": early}, map[string]interface{}{"name": "auth-jwt", "config": pcfg}}
 		f.TwoEntries = true
 	}
+	for _, sp := range svcPlugins {
+		if r.Intn(3) == 0 {
+			doc["plugins"] = append(doc["plugins"].([]interface{}), map[string]interface{}{"name": sp.id})
+			f.Plug = append(f.Plug, svcPluginURL(sp))
+		}
+	}
 	if !first {
 		switch r.Intn(10) {
 		case 0:
@@ -138,7 +159,7 @@ func genCfgFile(r *mrand.Rand, urls []string, pems map[string]string, first bool
 	f.Text = string(b)
 	if f.Kind == "bad_json" {
 		f.Text = f.Text[:len(f.Text)/2]
-		f.HasSvc, f.Services, f.HasRoles, f.Roles, f.HasKeys, f.Keys, f.Poll = false, nil, false, nil, false, nil, ""
+		f.HasSvc, f.Services, f.HasRoles, f.Roles, f.HasKeys, f.Keys, f.Poll, f.Plug = false, nil, false, nil, false, nil, "", nil
 	}
 	if f.Kind == "wrong_type" {
 		// encoding/json reports the type error at the end; whether "services" was assigned depends on key order:
@@ -180,16 +201,28 @@ func observeConfig(cfg *bramble.Config, es *bramble.ExecutableSchema, jp *plugin
 	keys := jp.VerifKeyIDs()
 	sort.Strings(keys)
 	_, perr := time.ParseDuration(cfg.PollInterval)
-	return "{| cs_mem := " + cstrlist(mem) + "; cs_eff := " + cstrlist(eff) + "; cs_roles := " + clist(roles) + "; cs_keys := " + cstrlist(keys) + "; cs_poll_ok := " + cbool(perr == nil) + " |}"
+	var plug []string
+	for _, p := range cfg.VerifPlugins() {
+		if ok, path := p.GraphqlQueryPath(); ok {
+			plug = append(plug, cfg.PrivateHttpAddress(path))
+		}
+	}
+	sort.Strings(plug)
+	return "{| cs_mem := " + cstrlist(mem) + "; cs_eff := " + cstrlist(eff) + "; cs_roles := " + clist(roles) + "; cs_keys := " + cstrlist(keys) + "; cs_poll_ok := " + cbool(perr == nil) + "; cs_plug := " + cstrlist(plug) + " |}"
 }
 
 func runC20(cfg runCfg) error {
 	r := mrand.New(mrand.NewSource(cfg.seed))
 	sum := &summary{Property: "C20", Seed: cfg.seed, Features: map[string]int{}, CaseInputs: map[string]interface{}{},
-		Rule: "random histories (2..8 edits) of one config file: services added/removed/reordered/duplicated or the key omitted; JWT roles and public keys added/removed or the key omitted; the plugin configured twice in one file and an edit of the earlier entry only; invalid JSON, wrong type, invalid duration; BRAMBLE_SERVICE_LIST set or not; after every edit a synchronous reload, then the in-memory list, the federated services, the JWT role table and key ids are read back and a fresh start on the same file is taken for comparison; non-trivial = history contains an omitted key, a removal or an unloadable edit"}
+		Rule: "random histories (2..8 edits) of one config file: services added/removed/reordered/duplicated or the key omitted; JWT roles and public keys added/removed or the key omitted; the plugin configured twice in one file and an edit of the earlier entry only; two plugins that each contribute a service (GraphqlQueryPath) enabled or not by each version of the file; invalid JSON, wrong type, invalid duration; BRAMBLE_SERVICE_LIST set or not; after every edit a synchronous reload, then the in-memory list, the federated services, the JWT role table and key ids are read back and a fresh start on the same file is taken for comparison; non-trivial = history contains an omitted key, a removal or an unloadable edit"}
 	w := &caseWriter{dir: cfg.out, shard: 60, check: "check_config_case", imports: "From V Require Import Base.Util Model.Config Corr.ConfigCheck."}
 	urls := []string{"http://s1.svc/query", "http://s2.svc/query", "http://s3.svc/query", "http://s4.svc/query", "http://e1.svc/query"}
-	fed := pollOnlyFederation(urls)
+	all := append([]string{}, urls...)
+	for _, sp := range svcPlugins {
+		bramble.RegisteredPlugins()[sp.id] = sp
+		all = append(all, svcPluginURL(sp))
+	}
+	fed := pollOnlyFederation(all)
 	world := &simWorld{fed: fed, data: newDataGraph()}
 	hc := &http.Client{Transport: world, Timeout: 10 * time.Second}
 	pems := map[string]string{}
@@ -296,7 +329,12 @@ func runC20(cfg runCfg) error {
 			bramble.RegisteredPlugins()["auth-jwt"] = jp2
 			c2, err2 := bramble.GetConfig([]string{path})
 			if err2 == nil {
-				freshObs = append(freshObs, "(Some "+observeConfig(c2, nil, jp2)+")")
+				// ... and initialised, as main does: Init builds the list once more, with the plugins now configured
+				c2.QueryHTTPClient = hc
+				err2 = c2.Init()
+			}
+			if err2 == nil {
+				freshObs = append(freshObs, "(Some "+observeConfig(c2, c2.VerifExecutableSchema(), jp2)+")")
 			} else {
 				freshObs = append(freshObs, "None")
 			}
